@@ -82,6 +82,7 @@ var clientPerturbs = []refkdc.Perturb{{}, {Kind: "nonce", Arg: 1}, {Kind: "cname
 	{Kind: "enc-flip"}, {Kind: "enc-trunc"}, {Kind: "authtime", Arg: 400_000_000_000}, {Kind: "enc-plain-garbage", Arg: 40},
 	// a reply that decrypts but does not decode, with the session key still inside the plaintext
 	{Kind: "enc-plain-subst", Arg: 0<<8 | 0x30}, {Kind: "enc-plain-subst", Arg: 1<<8 | 0x05}, {Kind: "enc-plain-subst", Arg: 5<<8 | 0xff}, {Kind: "enc-plain-prefix", Arg: 70},
+	{Kind: "edata-other-etype"}, {Kind: "edata-unknown-etype"}, {Kind: "edata-empty-info2"},
 	{Kind: "padata-garbage"}, {Kind: "tkt-sname-empty"}, {Kind: "msg-type", Arg: 13}}
 var clientNets = []struct {
 	k string
@@ -435,6 +436,14 @@ func runClient(tp *Tape, m *monitor) {
 		}
 	} else {
 		kdc.AddKeyUser("alice", 3)
+		if tp.RunSeed%2 == 0 {
+			// an account with one key only (the keytab then lacks every other etype a KDC may hint at)
+			for et := range kdc.DB["alice"].Keys {
+				if et != tp.Etype {
+					delete(kdc.DB["alice"].Keys, et)
+				}
+			}
+		}
 		for et, k := range kdc.DB["alice"].Keys {
 			m.t.Add("long-term-key", fmt.Sprintf("alice keytab etype %d", et), k.Key.Value)
 		}
